@@ -1281,9 +1281,17 @@ func c12LogJoin(member string, streams ...string) *proto.RaftLog {
 // (RemoveTombstonedStream(stream, last index)), waits for the server's goroutines and returns
 // the state of group g.
 func c12FSMRun(entries []c12Entry, endRecovery bool) (state string, err error) {
-	dir, e := os.MkdirTemp("", "verif-c12-fsm")
+	st, e := c12FSMRunSt(entries, endRecovery)
 	if e != nil {
 		return "", e
+	}
+	return st.String(), nil
+}
+
+func c12FSMRunSt(entries []c12Entry, endRecovery bool) (state c12State, err error) {
+	dir, e := os.MkdirTemp("", "verif-c12-fsm")
+	if e != nil {
+		return state, e
 	}
 	defer os.RemoveAll(dir)
 	cfg := getTestConfig("c12", true, 0)
@@ -1310,26 +1318,26 @@ func c12FSMRun(entries []c12Entry, endRecovery bool) (state string, err error) {
 		// streams are always created in recovery mode so that their partitions are not started
 		rec := en.recovered || en.log.Op == proto.Op_CREATE_STREAM
 		if _, e := s.apply(en.log, last, rec); e != nil {
-			return "", fmt.Errorf("apply %d (%s): %v", last, en.log.Op, e)
+			return state, fmt.Errorf("apply %d (%s): %v", last, en.log.Op, e)
 		}
 	}
 	if endRecovery {
 		for _, st := range s.metadata.GetStreams() {
 			if st.IsTombstoned() {
 				if e := s.metadata.RemoveTombstonedStream(st, last); e != nil {
-					return "", e
+					return state, e
 				}
 			}
 		}
 	}
 	if e := wait(); e != nil {
-		return "", e
+		return state, e
 	}
 	g := s.metadata.GetConsumerGroup("g")
 	if g == nil {
-		return "", fmt.Errorf("group missing")
+		return state, fmt.Errorf("group missing")
 	}
-	state = c12Snapshot(g).String()
+	state = c12Snapshot(g)
 	// tidy up: close the remaining streams' logs
 	for _, st := range s.metadata.GetStreams() {
 		last++
@@ -1385,6 +1393,57 @@ func (cx *c12Ctx) fsmRecovery(n int) {
 				"(deleted stream only tombstoned, groups notified at the end of the replay with the last index) leaves group g in %s, "+
 				"a server that applied the same log live (notification in order) has %s — different assignments of stream a for the same group epoch (%d of %d runs)",
 				reordered, live, nRe, n)})
+	}
+}
+
+// fsmRecoveryDeletes: a log REPLAYED at start-up in which streams the group subscribes to are deleted - two of them, or one
+// followed by a group operation as the last entry. At the end of the replay every tombstoned stream is removed with the SAME
+// epoch (the last index): each of these notifications must reach the group. Judged by the statement only: afterwards no member
+// is subscribed to, or holds a partition of, a stream that no longer exists, and the streams that do exist are handed out
+// exactly once.
+func (cx *c12Ctx) fsmRecoveryDeletes(n int) {
+	type sc struct {
+		name    string
+		entries []c12Entry
+		parts   map[string]int32
+		gone    []string
+	}
+	scs := []sc{
+		{"two-deletions", []c12Entry{{c12LogStream("a", 2), true}, {c12LogStream("b", 2), true}, {c12LogStream("c", 2), true},
+			{c12LogGroup("x", "a", "b", "c"), true}, {c12LogJoin("y", "a", "b", "c"), true}, {c12LogDelete("a"), true}, {c12LogDelete("b"), true}},
+			map[string]int32{"c": 2}, []string{"a", "b"}},
+		{"deletion-then-join-last", []c12Entry{{c12LogStream("a", 2), true}, {c12LogStream("c", 3), true},
+			{c12LogGroup("x", "a", "c"), true}, {c12LogDelete("a"), true}, {c12LogJoin("y", "c"), true}},
+			map[string]int32{"c": 3}, []string{"a"}},
+		{"three-deletions", []c12Entry{{c12LogStream("a", 1), true}, {c12LogStream("b", 1), true}, {c12LogStream("c", 1), true}, {c12LogStream("d", 2), true},
+			{c12LogGroup("x", "a", "b", "c", "d"), true}, {c12LogDelete("c"), true}, {c12LogDelete("a"), true}, {c12LogDelete("b"), true}},
+			map[string]int32{"d": 2}, []string{"a", "b", "c"}},
+	}
+	for _, c := range scs {
+		for i := 0; i < n; i++ {
+			line := fmt.Sprintf("c12 fsm-recovery-deletes %s", c.name)
+			cx.res.Count(fmt.Sprintf("%s:%d", line, i), true)
+			cx.res.Dist("fsm-recovery-deletes:" + c.name)
+			st, err := c12FSMRunSt(c.entries, true)
+			if err != nil {
+				cx.res.Fail(vFailure{Kind: "disagreement", Case: []string{line}, Detail: "FSM recovery path could not be run: " + err.Error()})
+				return
+			}
+			detail, tag := "", ""
+			for _, gone := range c.gone {
+				if c12Subscribed(st, gone) && detail == "" {
+					detail, tag = fmt.Sprintf("after the replay stream %s no longer exists, yet the group still has a member subscribed to it: %s", gone, st), "group-subscribed-to-deleted-stream"
+				}
+			}
+			if detail == "" {
+				detail, tag = c12Oracle(st, c.parts, true)
+			}
+			if detail != "" {
+				cx.spec(vFailure{Kind: "spec", Case: []string{line}, Impl: []string{st.String()}, Tag: tag,
+					Detail: "log replayed at start-up (deleted streams tombstoned, the group notified for each of them at the end of the replay with the last index): " + detail})
+				break
+			}
+		}
 	}
 }
 
@@ -1573,6 +1632,7 @@ func TestVerifC12(t *testing.T) {
 		// which delivery schedules can this code base execute? (decides how the case is judged)
 		cx.fsm(5)
 		cx.fsmRecovery(2)
+		cx.fsmRecoveryDeletes(1)
 		cx.judge(rc, true, "replay")
 		return
 	}
@@ -1581,11 +1641,13 @@ func TestVerifC12(t *testing.T) {
 	if vThorough() {
 		cx.fsm(300)
 		cx.fsmRecovery(50)
+		cx.fsmRecoveryDeletes(20)
 		cx.fsmRecreate(50)
 		cx.fsmRestore(20)
 	} else {
 		cx.fsm(40)
 		cx.fsmRecovery(10)
+		cx.fsmRecoveryDeletes(4)
 		cx.fsmRecreate(8)
 		cx.fsmRestore(3)
 	}
